@@ -45,30 +45,32 @@ def receipts_harness(prop, tier, seed, cov, log):
     """C19: the real HandleReceipts loop against a stand-in credit service; valid triples and every
     single-field corruption, service up / slow / down, queue full."""
     rounds = 8 if tier == 'quick' else 80
-    r = subprocess.run([f'{L.BIN}/receipts', '-seed', str(seed), '-rounds', str(rounds), '-per', '80', '-cap', '128'],
-                       capture_output=True, text=True, env=L.GOENV, timeout=1200)
-    lines = [l for l in r.stdout.split('\n') if l.startswith('RCPT ')]
-    cov['receipt_scenarios'] = len(lines)
-    cov['receipt_submissions'] = sum(int(m.group(1)) for l in lines for m in [re.search(r'subs=(\d+)', l)] if m)
-    cov['receipt_forwarded'] = sum(int(m.group(1)) for l in lines for m in [re.search(r'forwarded=(\d+)', l)] if m)
-    viol = []
-    if r.returncode != 0 or not lines:
-        path = L.write_replay(prop, 'receipts-harness', {'property': prop, 'broken': 'go/cmd/receipts'}, [r.stderr[-3000:]])
-        return [(path, ' no-failing-input-found')]
-    seen = set()
-    known = L.load_known(prop)
-    for l in lines:
-        verdict = l.split()[1]
-        if verdict == 'ok' or verdict in seen: continue
-        # C08 asks of the receipt path only that no client can stop it for the others or block a handler
-        if prop == 'C08' and verdict not in ('receipt-worker-stopped', 'submission-blocked'): continue
-        seen.add(verdict)
-        k = [e for e in known if e['cause'] == verdict]
-        if k:
-            print(f'KNOWN-FINDING: property={prop} {k[0]["what"]} [{verdict}]'); continue
-        path = L.write_replay(prop, verdict, {'property': prop, 'cause': verdict, 'seed': seed, 'tier': tier,
-                              'replay': f'.cache/bin/receipts -seed {seed} -rounds {rounds} -per 80'}, [l])
-        viol.append((path, ''))
+    viol = []; seen = set(); known = L.load_known(prop)
+    cov['receipt_scenarios'] = cov['receipt_submissions'] = cov['receipt_forwarded'] = 0
+    # twice: linked with cgo (libsecp256k1 recovers the signer) and without (the pure Go implementation: how the
+    # release binary is built); the two must refuse the same signatures
+    for exe, nrounds in (('receipts', rounds), ('receipts-nocgo', rounds if tier != 'quick' else 4)):
+        r = subprocess.run([f'{L.BIN}/{exe}', '-seed', str(seed), '-rounds', str(nrounds), '-per', '80', '-cap', '128'],
+                           capture_output=True, text=True, env=L.GOENV, timeout=1200)
+        lines = [l for l in r.stdout.split('\n') if l.startswith('RCPT ')]
+        cov['receipt_scenarios'] += len(lines)
+        cov['receipt_submissions'] += sum(int(m.group(1)) for l in lines for m in [re.search(r'subs=(\d+)', l)] if m)
+        cov['receipt_forwarded'] += sum(int(m.group(1)) for l in lines for m in [re.search(r'forwarded=(\d+)', l)] if m)
+        if r.returncode != 0 or not lines:
+            path = L.write_replay(prop, 'receipts-harness', {'property': prop, 'broken': f'go/cmd/receipts ({exe})'}, [r.stderr[-3000:]])
+            return [(path, ' no-failing-input-found')]
+        for l in lines:
+            verdict = l.split()[1]
+            if verdict == 'ok' or verdict in seen: continue
+            # C08 asks of the receipt path only that no client can stop it for the others or block a handler
+            if prop == 'C08' and verdict not in ('receipt-worker-stopped', 'submission-blocked'): continue
+            seen.add(verdict)
+            k = [e for e in known if e['cause'] == verdict]
+            if k:
+                print(f'KNOWN-FINDING: property={prop} {k[0]["what"]} [{verdict}]'); continue
+            path = L.write_replay(prop, verdict, {'property': prop, 'cause': verdict, 'seed': seed, 'tier': tier,
+                                  'replay': f'.cache/bin/{exe} -seed {seed} -rounds {nrounds} -per 80'}, [l])
+            viol.append((path, ''))
     return viol
 
 
